@@ -25,7 +25,9 @@ LEVEL_TEXT = ("Machine-checked proof (Coq, closed under the global context) over
               "implementation-level oracle on boundary and random peer values.")
 LEVEL_NOTE = ("kex_gss.py handlers are modelled only as PREFIXES up to their first transport call (_set_K_H, or the "
               "send of KEXGSS_INIT for the group handler); the GSS context negotiation after it is not modelled and "
-              "the engines are driven with a stub GSS context (every context operation succeeds).  "
+              "the engines are driven with a stub GSS context (every context operation succeeds).  The model has no "
+              "transport/engine state (a handler's decision depends on the peer value and modulus only); that the real "
+              "handlers agree with it on a second call / re-key / after KEXGSS_HOSTKEY is tested, not proved.  "
               "PARTIAL for elliptic curves: point validation (from_encoded_point, X25519 from_public_bytes/exchange) "
               "is the `cryptography` library's; in the proofs it is an oracle bit (C08_ec_handler_partial; "
               "C08_ec_handler_under_spec gives the handlers' behaviour under the premise that the bit equals the spec), in the "
@@ -77,9 +79,8 @@ class StubGSS:
 
 
 class StubTransport:
-    host_key = None
-    session_id = b"session-id"
     gss_kex_used = False
+    initial_kex_done = False
     local_version = "SSH-2.0-paramiko_verif"
     remote_version = "SSH-2.0-peer"
     local_kex_init = b"local-kex-init"
@@ -93,6 +94,8 @@ class StubTransport:
         self._key = key
         self.host_key_type = key.get_name()
         self.kexgss_ctxt = StubGSS()
+        self.host_key = None
+        self.session_id = None
 
     def _send_message(self, m):
         self.calls.append("send")
@@ -104,6 +107,8 @@ class StubTransport:
     def _set_K_H(self, K, H):
         self.calls.append("setKH")
         self.K = K
+        if self.session_id is None:
+            self.session_id = H
 
     def _verify_key(self, host_key, sig):
         self.calls.append("verify")
@@ -227,19 +232,20 @@ class ForcedKey:
 
 # --------------------------------------------------------------------------- executing one case
 
-def execute(case, key):
-    """Drive the real engine on one case; returns dict(code, events, K, sent, exc)."""
+def is_server(case):
+    return case.get("role") == "init" and case["kind"] not in ("gex-group", "gss-gex-group")
+
+
+def prepare(case, t, engine=None):
+    """Build (or re-use) the engine for one case on transport stub t and the message to feed it."""
     from paramiko.message import Message
     kind = case["kind"]
-    server = case["role"] == "init" if "role" in case else False
-    if kind in ("gex-group", "gss-gex-group"):
-        server = False
-    t = StubTransport(server, key)
+    server = is_server(case)
     m = Message()
     info = {}
     if kind == "fixed":
         cls = dict(fixed_classes())[case["group"]]
-        k = cls(t)
+        k = engine or cls(t)
         k.x = case["x"]
         if server:
             k.f = pow(cls.G, k.x, cls.P)
@@ -254,7 +260,7 @@ def execute(case, key):
         info["p"] = cls.P
     elif kind == "gex-group":
         cls = gex_classes()[case["cls"] % len(gex_classes())][1]
-        k = cls(t)
+        k = engine or cls(t)
         if case["p"] <= 0:
             # a non-positive modulus that passes the size test would make _generate_x loop forever
             k._generate_x = lambda: setattr(k, "x", 3)
@@ -263,7 +269,7 @@ def execute(case, key):
         ptype, fn = 31, k._parse_kexdh_gex_group
     elif kind in ("gex-init", "gex-reply"):
         cls = gex_classes()[case["cls"] % len(gex_classes())][1]
-        k = cls(t)
+        k = engine or cls(t)
         k.p, k.g = case["p"], case["g"]
         if server:
             m.add_string(bytes.fromhex(case["raw"]))
@@ -278,7 +284,7 @@ def execute(case, key):
         info["p"] = case["p"]
     elif kind == "gss-fixed":
         cls = dict(gss_fixed_classes())[case["group"]]
-        k = cls(t)
+        k = engine or cls(t)
         k.x = case["x"]
         if server:
             k.f = pow(cls.G, k.x, cls.P)
@@ -296,7 +302,7 @@ def execute(case, key):
         info["p"] = cls.P
     elif kind == "gss-gex-group":
         from paramiko.kex_gss import KexGSSGex
-        k = KexGSSGex(t)
+        k = engine or KexGSSGex(t)
         if case["p"] <= 0:
             k._generate_x = lambda: setattr(k, "x", 3)
         m.add_mpint(case["p"])
@@ -304,7 +310,7 @@ def execute(case, key):
         ptype, fn = 41, k._parse_kexgss_group
     elif kind in ("gss-gex-init", "gss-gex-complete"):
         from paramiko.kex_gss import KexGSSGex
-        k = KexGSSGex(t)
+        k = engine or KexGSSGex(t)
         k.p, k.g = case["p"], case["g"]
         if server:
             m.add_string(b"client-gss-token")
@@ -323,7 +329,7 @@ def execute(case, key):
     elif kind == "x25519":
         from cryptography.hazmat.primitives.asymmetric.x25519 import X25519PrivateKey
         from paramiko.kex_curve25519 import KexCurve25519
-        k = KexCurve25519(t)
+        k = engine or KexCurve25519(t)
         real = X25519PrivateKey.from_private_bytes(bytes.fromhex(case["priv"]))
         k.key = real if case.get("forced") is None else ForcedKey(real, bytes.fromhex(case["forced"]))
         pk = bytes.fromhex(case["pk"])
@@ -337,7 +343,7 @@ def execute(case, key):
             ptype, fn = 31, k._parse_kexecdh_reply
     elif kind == "ec":
         cls = ec_classes()[case["curve"]][1]
-        k = cls(t)
+        k = engine or cls(t)
         k._generate_key_pair()
         pt = bytes.fromhex(case["pt"])
         if server:
@@ -351,17 +357,76 @@ def execute(case, key):
     else:
         raise ValueError(kind)
     m.rewind()
-    exc = None
+    return k, m, ptype, fn, info
+
+
+def honest_variant(case):
+    """The same exchange with a valid peer value (used to bring the transport stub into the re-key state)."""
+    from cryptography.hazmat.primitives.asymmetric import ec
+    from cryptography.hazmat.primitives.asymmetric.x25519 import X25519PrivateKey
+    from cryptography.hazmat.primitives import serialization
+    w = dict(case)
+    kind = case["kind"]
+    w["state"] = "first"
+    if "raw" in case:
+        w["raw"] = mpint_raw(0x1234567).hex()
+    if kind in ("gex-group", "gss-gex-group"):
+        w["p"], w["g"] = (1 << 1023) | 0x4d5, 2
+    if kind == "x25519":
+        w["forced"] = None
+        w["pk"] = X25519PrivateKey.generate().public_key().public_bytes(
+            serialization.Encoding.Raw, serialization.PublicFormat.Raw).hex()
+    if kind == "ec":
+        w["pt"] = ec.generate_private_key(ec_classes()[case["curve"]][1].curve).public_key().public_bytes(
+            serialization.Encoding.X962, serialization.PublicFormat.UncompressedPoint).hex()
+    return w
+
+
+def drive(k, m, ptype, fn, via):
     try:
-        if case.get("via") == "parse_next":
+        if via == "parse_next":
             k.parse_next(ptype, m)
         else:
             fn(m)
     except Exception as e:   # noqa: the exception class is an observable
-        exc = e
+        return e
+    return None
+
+
+def execute(case, key):
+    """Drive the real engine on one case; returns dict(code, events, K, sent, exc).
+
+    case["state"]: "first"  - fresh transport stub (initial key exchange);
+                   "rekey"  - the same transport stub has completed an honest exchange of the same kind and a NEW
+                              engine object handles the case (what Transport does on every re-key);
+                   "reuse"  - as "rekey", but the SAME engine object handles the case (second call);
+                   "hostkey"- kex_gss client only: a KEXGSS_HOSTKEY message was processed first."""
+    from paramiko.message import Message
+    state = case.get("state", "first")
+    t = StubTransport(is_server(case), key)
+    engine = None
+    warm = None
+    if state in ("rekey", "reuse"):
+        k0, m0, ptype0, fn0, _ = prepare(honest_variant(case), t)
+        e0 = drive(k0, m0, ptype0, fn0, case.get("via"))
+        warm = None if e0 is None else "%s: %s" % (type(e0).__name__, str(e0)[:80])
+        t.initial_kex_done = True
+        t.calls, t.K, t.sent = [], None, None
+        if state == "reuse":
+            engine = k0
+    k, m, ptype, fn, info = prepare(case, t, engine)
+    if state == "hostkey":
+        hm = Message()
+        hm.add_string(b"host-key-blob")
+        hm.add_string(b"host-key-signature")
+        hm.rewind()
+        e0 = drive(k, hm, 33, k._parse_kexgss_hostkey, case.get("via"))
+        warm = None if e0 is None else "%s: %s" % (type(e0).__name__, str(e0)[:80])
+        t.calls, t.K, t.sent = [], None, None
+    exc = drive(k, m, ptype, fn, case.get("via"))
     info.update({"code": exc_code(exc), "events": [EV[c] for c in t.calls], "K": t.K, "sent": t.sent,
                  "exc": None if exc is None else "%s: %s" % (type(exc).__name__, str(exc)[:80]),
-                 "x": getattr(k, "x", None), "engine": k})
+                 "x": getattr(k, "x", None), "engine": k, "warmup_exc": warm})
     return info
 
 
@@ -401,13 +466,7 @@ def judge(ctx, case, res):
                      "peer DH value outside [1, p-1] accepted (keys derived: K=%s)" % (
                          "0" if res["K"] == 0 else "0x%x.." % (res["K"] or 0) if (res["K"] or 0) >= 0 else "negative"),
                      case=short(case), expected="SSHException", observed=res["events"])
-        if ok and not accepted and post_test_failure(case, res):
-            # an exception other than SSHException before any transport call, on an in-range value: not a
-            # decision of the range test (see post_test_failure); noted, outside C08
-            note = "%s raises %s after accepting an in-range value (outside C08)" % (site, res["exc"])
-            if note not in ctx.notes:
-                ctx.notes.append(note)
-        elif ok and not accepted:
+        if ok and not accepted:
             ctx.fail("dh-in-range-rejected:" + site, "peer DH value inside [1, p-1] rejected: %s" % res["exc"],
                      case=short(case), expected="accept", observed=res["exc"])
         if ok and accepted:
@@ -442,14 +501,6 @@ def judge(ctx, case, res):
         if accepted and not valid:
             ctx.fail("ec-invalid-point-accepted", "ECDH handler derived keys from a point that is not on the curve "
                      "(%s)" % case.get("label"), case=short(case), expected="exception", observed=res["events"])
-
-
-def post_test_failure(case, res):
-    """kex_gss.py handlers only: a non-SSHException raised before any transport call.  The range test
-    raises SSHException, so such a failure happened after the test let the value through (e.g. the
-    hash computation of KexGSSGroup1._parse_kexgss_complete); it says nothing about C08 and the prefix
-    model does not describe it."""
-    return case["kind"].startswith("gss-") and res["code"] not in (0, 1) and not res["events"]
 
 
 def canon_gss(res):
@@ -693,7 +744,38 @@ def gen_cases(ctx):
             for lab, pt in pts:
                 cases.append({"kind": "ec", "curve": ci, "role": role, "pt": pt.hex(), "label": lab,
                               "via": rng.choice(["parse_next", "direct"])})
-    return cases
+
+    # ---- second call on the same objects: re-key on the same transport (new engine), the same engine
+    #      object used twice, and (kex_gss client) a KEXGSS_HOSTKEY message first.  Every site gets its
+    #      core accepted / rejected inputs again in each of these states.
+    fixedP = {n: c.P for n, c in fixed_classes() + gss_fixed_classes()}
+    seen = set()
+    extra = []
+    for c in cases:
+        kind = c["kind"]
+        if "raw" in c:
+            pm = c["p"] if "p" in c else fixedP[c["group"]]
+            v = mpint_value(bytes.fromhex(c["raw"]))
+            core = c["label"] == "boundary" and (T or v in (0, 1, pm - 1, pm, pm + 1, -1))
+            sig = (kind, c.get("group"), c.get("role"), pm, v)
+        elif kind in ("gex-group", "gss-gex-group"):
+            core = c["label"] in ("1023-bit", "1024-bit", "8193-bit", "negative 2048-bit", "2048-bit")
+            sig = (kind, c["label"])
+        elif kind == "x25519":
+            core = c["label"] in ("low-order", "forced-zero", "wrong-length", "random", "forced")
+            sig = (kind, c["role"], c["label"])
+        else:
+            core = c["label"] in ("valid", "off-curve-y", "infinity", "empty", "x-equals-p", "compressed-valid", "zero-zero")
+            sig = (kind, c["curve"], c["role"], c["label"])
+        if not core or sig in seen:
+            continue
+        seen.add(sig)
+        states = ["rekey", "reuse"]
+        if kind in ("gss-fixed", "gss-gex-complete") and c.get("role") == "complete":
+            states.append("hostkey")
+        for st in states:
+            extra.append(dict(c, state=st))
+    return cases + extra
 
 
 # --------------------------------------------------------------------------- run / replay
@@ -706,7 +788,9 @@ def run(ctx):
                 "(min, max and a random value per size; every boundary 1023/1024/8192/8193) and negative moduli; X25519 "
                 "low-order points, wrong lengths, random keys, and chosen exchange results incl. 32 zero bytes; NIST points: "
                 "valid, negated, off-curve, out-of-range coordinates, wrong length, infinity, empty, hybrid, compressed "
-                "(valid / no such point), other curve.  A case is non-trivial when distinct and it reaches a rejection "
+                "(valid / no such point), other curve.  Every site's core accepted / rejected inputs are repeated in the "
+                "re-key state (same transport stub after an honest exchange, new engine object), on the same engine "
+                "object a second time, and (kex_gss client) after a KEXGSS_HOSTKEY message.  A case is non-trivial when distinct and it reaches a rejection "
                 "test or library validation (all do)")
     ctx.trusted += ["gen/c08.py translator (fail-closed) - reject_xxx / steps_xxx / fixed_groups / curves in Gen/C08_gen.v",
                     "EC / X25519 point validation is the cryptography library's; the Gallina spec ec_accept and the "
@@ -724,20 +808,27 @@ def run(ctx):
     t0 = time.time()
     cases = gen_cases(ctx)
     by_fn = {}
+    queued = set()
     for case in cases:
         res = execute(case, key)
         res.pop("engine", None)
         ctx.count(("case", sorted((k, str(v)) for k, v in short(case).items() if k not in ("x", "priv", "via"))),
                   nontrivial=True, kind=case["kind"] + ":" + str(case.get("label")))
         judge(ctx, case, res)
-        if post_test_failure(case, res):
-            continue       # not a decision of a C08 test; noted by judge(), not compared with the prefix model
+        if res.get("warmup_exc"):
+            ctx.disagree("the honest warm-up exchange of a re-key case failed: %s" % res["warmup_exc"], case=short(case))
         try:
             fn, ty, inp = model_input(case, res)
         except Exception as e:   # noqa
             ctx.disagree("cannot render a model input: %s" % e, case=short(case))
             continue
         exp = canon_gss(res) if case["kind"].startswith("gss-") else canon(res)
+        # the model has no state: a (model input, implementation output) pair already queued need not be
+        # evaluated again (a different implementation output for the same input IS queued and will mismatch)
+        dk = (fn, inp, tuple(exp))
+        if dk in queued:
+            continue
+        queued.add(dk)
         by_fn.setdefault((fn, ty), []).append((inp, exp, case, res))
         if case.get("label") in ("boundary", "forced-zero", "off-curve-y", "1023-bit", "negative 2048-bit"):
             if not any(s.get("kind") == case["kind"] for s in ctx.samples):
